@@ -36,6 +36,7 @@ type Config struct {
 	SkipInit     func(path string) bool
 	Debug        bool
 	Fixed        map[string]uint64 // concrete mode: input name -> value
+	SamplesPerJob int
 }
 
 type DecKind uint8
@@ -90,6 +91,7 @@ type PathResult struct {
 	Violation *Violation
 	Steps     int
 	Decisions int
+	Sample    map[string]string
 }
 
 // Exec is one worker's interpreter state.
@@ -134,6 +136,7 @@ type Exec struct {
 	intrins    map[string]int
 	harnessRT  map[*ssa.Function]bool
 	cutPending *ssa.Function
+	wantSample func(*Job) bool
 }
 
 type Job struct {
@@ -850,7 +853,31 @@ func (ex *Exec) RunPath(job *Job, prefix []Decision) (res PathResult, alts [][]D
 	}
 	ex.callSSA(nil, job.Harness, args, nil, nil)
 	res.Kind = endDone
+	if ex.wantSample != nil && ex.wantSample(job) && ex.cfg.Fixed == nil {
+		res.Sample = ex.sampleInputs()
+	}
 	return
+}
+
+// sampleInputs returns a model of the inputs satisfying the completed path's
+// condition (nil if the solver gives none).
+func (ex *Exec) sampleInputs() map[string]string {
+	var want []*sym.Term
+	for _, in := range ex.inputs {
+		want = append(want, in.Term)
+	}
+	out := map[string]string{}
+	if len(want) == 0 {
+		return out
+	}
+	r, m := ex.solver.Check(nil, want)
+	if r != sym.Sat {
+		return nil
+	}
+	for _, in := range ex.inputs {
+		out[in.Name] = fmt.Sprintf("%d", m[in.Term])
+	}
+	return out
 }
 
 func (ex *Exec) violation(kind, msg, site string) *Violation {
@@ -893,6 +920,7 @@ type JobResult struct {
 	Reached      map[string]int
 	Wall         time.Duration
 	MaxDecisions int
+	Samples      []map[string]string // input models of completed (passing) paths, for the native differential run
 }
 
 type Stats struct {
@@ -936,6 +964,16 @@ func Explore(prog *ssa.Program, cfg *Config, jobs []*Job, nworkers int) ([]*JobR
 				return
 			}
 			defer ex.Close()
+			ex.wantSample = func(j *Job) bool {
+				mu.Lock()
+				defer mu.Unlock()
+				for _, r := range results {
+					if r.Job == j {
+						return len(r.Samples) < cfg.SamplesPerJob
+					}
+				}
+				return false
+			}
 			for {
 				mu.Lock()
 				for len(stack) == 0 && active > 0 {
@@ -963,6 +1001,9 @@ func Explore(prog *ssa.Program, cfg *Config, jobs []*Job, nworkers int) ([]*JobR
 				switch res.Kind {
 				case endDone:
 					jr.Done++
+					if res.Sample != nil && len(jr.Samples) < cfg.SamplesPerJob {
+						jr.Samples = append(jr.Samples, res.Sample)
+					}
 				case endInfeasible:
 					jr.Infeasible++
 				case endViolation:
